@@ -70,8 +70,11 @@ CHECKS = {
            "(C02_component_programs_prune_soundly), no longer a hypothesis; table hypothesis (case folding never relates `/`) checked over all code points on every run. "
            "Tie: token tree, complete program and component programs of every walked glob, and the item sequences of real "
            "walks over generated on-disk trees vs the model's run on the independently read tree. Oracle: independent read-back filtered by is_match.",
-    'C03': "Proved (all trees, underlying stacks, depth windows): given what an exhaustive verdict promises (C09), not() yields exactly the entries of the underlying "
-           "walk the negation does not match (C03_not_is_a_filter); per-entry characterisation of the filtrate. Tie: partition programs and item sequences. "
+    'C03': "Proved (all trees with valid names, underlying stacks, depth windows): C03_not_is_a_filter_for_tree_terminated_negations - when the exhaustive part of the "
+           "negation is a token tree every expansion of which ends in a tree wildcard (class of the conformance theorem, e.g. `**/target/**`), run by any engine that "
+           "decides its language, and the negation does not match the empty path, not() yields exactly the entries of the underlying walk that the negation does not "
+           "match: the promise of the exhaustive verdict is discharged by the C09 theorem through conformance. For arbitrary programs the statement is proved given "
+           "that promise (C03_not_is_a_filter); per-entry characterisation of the filtrate. Tie: partition programs and item sequences. "
            "Oracle: walk.not(p) vs the underlying walk filtered entry by entry with is_match.",
     'C13': "Proved: the combinator stack machine (walkdir stack + layers with residue transitions) refines the pruned pre-order specification for all trees and stacks. "
            "Tie: full feed sequences observed by a pass-through filter_entry. Oracle: nothing beneath a discarded directory is fed downstream; no sibling is lost.",
